@@ -27,6 +27,8 @@ def gen(tier, seed, pid):
         kw = dict(STATIC if k % 4 == 3 else TOPLEVEL if k % 4 == 1 else STRUCT)
         kw["leakcheck"] = (k % 3 == 0)
         out.append(apigen.generate(rng, apigen.profile(**kw)))
+    import apienum
+    out += list(apienum.programs(3 if tier == "thorough" else 2, kinds=apienum.STRUCT_KINDS, mode="struct"))
     return out
 
 
